@@ -14,7 +14,8 @@ CLAIMED = {
              "any history length; RangeSet/MemoryAccessSet conflict detection is shown equal to byte overlap for symbolic ranges; calc_blockdep stays in "
              "[0, MAX] and is 0 whenever the previous kernel reads SHRAM bytes (its lookup table) that the current kernel overwrites; the SHRAM bytes a "
              "kernel is declared to write cover the layout its block configuration uses; ArchitectureFeatures.get_ifm_block_size (the job input "
-             "volume the BLOCKDEP analysis assumes) covers the receptive field of an OFM block per axis for symbolic kernels, strides and blocks.",
+             "volume the BLOCKDEP analysis assumes) covers the receptive field of an OFM block per axis for symbolic kernels, strides and blocks (also through the real get_first_job_input_volume); "
+             "address registers hold the operation's addresses at each NPU_OP word (what the wait analysis assumes), incl. bits 32..39.",
         note="Trusted: z3, symx proxies, the two-queue hardware model restated from the property, stubs replacing register "
              "generation/blockdep in layer 1. Outside: whether a non-zero BLOCKDEP is safe under NPU block timing; streams of compiled networks.",
         technique="dynamic symbolic execution of the real Python functions over z3 proxies (symx), bounded; counterexample replay",
@@ -24,7 +25,9 @@ CLAIMED = {
              "the RNG can produce) of n<=3 (thorough 4) live ranges over all time-interval vectors with symbolic sizes and mixed "
              "alignments; the search() publication rule as a one-iteration lemma; allocate() end to end with an arbitrary RNG for a "
              "bounded number of iterations; GreedyAllocator.alloc as an inductive step from an arbitrary sorted/disjoint state plus "
-             "whole runs; linear allocation with sharing patterns; verify_allocation shown to reject exactly the overlapping placements. "
+             "whole runs; linear allocation with sharing patterns; verify_allocation shown to reject exactly the overlapping placements; "
+             "tensor_allocation.allocate() hands the requested alignment, iteration bound (symbolic, incl. 0) and memory limit to whichever allocator is selected; "
+             "LiveRangeGraph keeps the strictest alignment requested. "
              "Oracle: own interval predicate (co-live => disjoint, aligned, total == / >= top).",
         note="Trusted: z3, symx proxies, stand-in tensor objects (LiveRange is the real class). Outside: more than 4 ranges in whole-run "
              "harnesses (step lemmas carry the unbounded part), the concrete pseudo-random sequence (all RNG values explored instead), "
@@ -37,7 +40,8 @@ CLAIMED = {
              "id words against an independent product table, NOP padding to a 16-byte boundary, declared 24-bit length == n, total size, "
              "and VelaError exactly for n >= 2^24; plus word identity/little-endian order for symbolic 32-bit words (n <= 4) and the "
              "public npu_create_driver_payload entry; the generator's own 16 MiB guard (generate_command_stream with the commands of earlier operations "
-             "abstracted to a symbolic word count) rejects exactly the streams of 2^22 words or more.",
+             "abstracted to a symbolic word count) rejects exactly the streams of 2^22 words or more; two payloads built in one process (all 30 ordered accelerator "
+             "pairs) each describe their own accelerator.",
         note="Trusted: z3, symx proxies, the struct.pack('<nI') model used in symbolic mode (replay uses the real struct), the product table "
              "(MACs/SHRAM per accelerator) restated from public Ethos-U data. Outside: command_stream tensors inside written files.",
         technique="dynamic symbolic execution of the real Python functions over z3 proxies (symx), symbolic stream length; counterexample replay",
@@ -51,7 +55,8 @@ CLAIMED = {
              "cascade (stand-in schedule objects): stripes partition the OFM, every row a consumer stripe reads has been produced and "
              "not yet overwritten in a rolling buffer of the height rolling_buffer_shape() gives; Scheduler.propose_minimal_schedule / "
              "propose_schedule_striping on operator chains with symbolic strides: producer stripes cover the consumer's stride and nearest-upscaling "
-             "operators only get even stripe heights (the assumption of the x2 upscaling lemma).",
+             "operators only get even stripe heights (the assumption of the x2 upscaling lemma). rows/cols also run with the operator reading a slice of a larger "
+             "tensor (fused Split/StridedSlice: symbolic read offset and extent) and take the programmed pads from the REAL create_padding.",
         note="Trusted: z3, symx proxies, the hardware-side rule that the NPU derives the valid IFM extent from OFM size, kernel, stride "
              "and pads (DESIGN §3 C10), stand-in schedule objects. Bounds: H<=64 (thorough 4096), kernel<=8 (16), cascade height<=40, "
              "<=4 consumer / <=12 producer stripes. Outside: scheduler-chosen stripe sequences of real networks, exact pad semantics "
@@ -65,7 +70,9 @@ CLAIMED = {
              "pure integer arithmetic over every full pair; the average-pool pair for every window size (quick: 1..1024 + boundaries + "
              "sample, thorough: all 1..65536) decided for EVERY int8/uint8/int16 accumulator by an integer query; add/sub/mul derivations "
              "equal to the same derivation evaluated in double from the same (float32 or double) inputs, compositionally over the proven "
-             "quantise_scale summary; operand selection.",
+             "quantise_scale summary; operand selection; _prepare_scale_and_bias hands the reference per-channel scale to the full or (int16 IFM with int64 bias) the "
+             "reduced quantisation; generate_scaling_for_elementwise uses the simplified Add/Sub derivation only for equal input scales and places either "
+             "derivation's results in the OPA/OPB/OFM scale registers unchanged (operand swap under reversed operands).",
         note="Trusted: z3 (FP/BV/LIA), symx float proxies with NumPy-2 (NEP 50) promotion, the TFLite QuantizeMultiplier definition "
              "restated as an integer formula. Assumptions: positive normal inputs in the main harness (other classes enumerated), negative "
              "exact ties of the pooling divisor may round either way, reduced form for shift >= 16. Outside: MUL reference precision, "
@@ -83,7 +90,9 @@ CLAIMED = {
              "zero points and alpha; each checked entry of the hard-swish table against the TFLite reference recipe (both multipliers symbolic where the "
              "entry saturates or shifts are small; one multiplier symbolic and the other enumerated in the realistic unsaturated regime); the "
              "scale handed to quantise_scale by the Quantize folding; the function tabulated for tanh/sigmoid; two lookup tables share an "
-             "equivalence id (one copy in the constants region) exactly when all their values are equal (hash() modelled for ints/tuples).",
+             "equivalence id (one copy in the constants region) exactly when all their values are equal (hash() modelled for ints/tuples); the 256-entry "
+             "softmax exp table against TFLite's preparation (input radius, rescale, exp_on_negative_values; leaves as shared uninterpreted functions); the rounding "
+             "wrapper of convert_to_lut8 / create_lut_8bit_op for ANY function value (IEEE float queries decided by a fresh non-incremental solver; output scale enumerated).",
         note="Trusted: z3 (BV/UF), symx NumPy-scalar proxies (differentially validated by symx.selfcheck), gemmlowp/TFLite definitions "
              "restated on bit-vectors. Quick tier abstracts the 32x32 product of srm32 to a shared uninterpreted function (exact multiplier "
              "in thorough). Outside: the values of sigmoid/tanh/exp tables built from math.tanh/exp (transcendental; the tabulated function is observed "
@@ -100,10 +109,12 @@ CLAIMED = {
              "object for all combinations of --config kinds / --system-config / --memory-mode with the file system answered by a symbolic Boolean "
              "(Dir/file.ini resolved to the bundled directory - absolute, with main() started from a different working directory than the import - and that "
              "path handed on, unreadable file rejected, selections never replaced); and "
-             "the value main() hands over when --arena-cache-size is absent, extracted from main()'s AST on every run.",
+             "the value main() hands over when --arena-cache-size is absent, extracted from main()'s AST on every run; an architecture object built with the internal "
+             "defaults equals, option for option, one built from the sections of Arm/vela.ini that OPTIONS.md names for them; an internal exception "
+             "(KeyError ...) on a legal file counts as a violation.",
         note="Trusted: z3, symx proxies, the ConfigParser stand-in (has_section/has_option/get), OPTIONS.md as the source of the rules. "
              "Outside: the file system itself and INI parsing, inherit cycles of length >= 2. "
-             "One recorded finding (CLI default shadows the file) is reported as KNOWN-FINDING.",
+             "Two recorded findings (CLI default shadows the file; the i.MX93 internal default is the High-End system configuration) are reported as KNOWN-FINDING.",
         technique="dynamic symbolic execution of the real Python functions over z3 proxies (symx), all feasible paths within the bound; AST extraction of the CLI binding; counterexample replay",
         design="DESIGN.md §3 C18"),
     "C15": dict(
@@ -114,7 +125,7 @@ CLAIMED = {
              "IFM / IFM2 / accumulator partitions each double-buffering the required block at its bank granule (independent restatement of the "
              "shared-buffer rules incl. the 1-D optimisation); invalid blocks are rejected; for every operation description the argument "
              "derivation of api.npu_find_block_configs implies acceptance under get_arch_block_config's derivation (symbolic block depth); "
-             "find_block_config's results re-validate.",
+             "find_block_config's results re-validate; the query/generator agreement also for operations whose IFM and OFM precision differ.",
         note="Trusted: z3, symx proxies, the per-accelerator constants (micro-block, banks, granules) restated in the harness, my reading "
              "of the SHRAM double-buffering rule. Quick tier samples 260 of the enumerated layout combinations per accelerator by seed "
              "(thorough: all). Outside: part-kernel choice agreement with the weight encoder, cost-based candidate choice.",
@@ -129,7 +140,7 @@ CLAIMED = {
              "sub-operation, IFM2 address/broadcast/scalar/operand order, explicit OFM/OPA/OPB scaling, DMA source/destination/length/regions/channel/mode), so that every register of the group holds an arbitrary previous value "
              "when the second operation is generated. A reference decoder tracks the register file over the emitted words and at each NPU_OP "
              "word requires every direct register to hold that operation's value - written or elided - including address/shift bits in the "
-             "command parameter, with no truncation; alignment/length errors exactly when the hardware rule is broken; one op word per "
+             "command parameter, with no truncation; KERNEL_WAIT/DMA_WAIT words precede the operation they guard on sequences of 3-4 operations (C04's monitor); alignment/length errors exactly when the hardware rule is broken; one op word per "
              "operation; exactly one STOP as the last word.",
         note="Trusted: z3, symx proxies, my reference register map/decoder (cmd0 = 16-bit parameter, cmd1 = 32-bit payload + parameter bits). "
              "calc_blockdep is stubbed to 0 (C04) and the tile group runs with empty access sets. Outside: lists longer than two operations "
@@ -148,7 +159,8 @@ CLAIMED = {
              "40-bit bias / 32-bit scale / 6-bit shift and rejects out-of-range arguments; create_weights in its four tensor configurations (direct/buffered "
              "weights x combined/stand-alone scales) with symbolic encoded ranges names the region and bytes of the tensor that holds them; the arguments "
              "handed to the C codec (dilation axes, bit depth, traversal) per accelerator; the REAL Scheduler.propose_weight_buffering over symbolic "
-             "per-slice byte counts: every depth slice fits the SRAM buffer it is DMA-ed into and weight and scale tensors describe the recorded slices.",
+             "per-slice byte counts: every depth slice fits the SRAM buffer it is DMA-ed into and weight and scale tensors describe the recorded slices; the "
+             "(multiplier, shift) of each scale record is the reference quantisation of the reference per-channel scale (C09's prep_scales and qs lemmas).",
         note="Partial by design: the byte content of the compressed streams (C codec, C07) is outside; what is decided is the index/offset/"
              "length bookkeeping around it. Trusted: z3, symx proxies, length-only byte-stream stand-ins. Assumes intermediate slice boundaries "
              "are multiples of the core count (established by propose_weight_buffering).",
@@ -165,7 +177,8 @@ CLAIMED = {
              "arena_cache_size-limited region exactly when spilling is enabled and region 0 only to permanent memory types; create_feature_map's strides "
              "stay inside the tensor; the scheduler's rolling-buffer size equals the live range; weight/scale ranges name the region of the tensor that "
              "holds them (create_weights, four configurations); an operation with fewer weight ranges than cores programs length 0 for the idle core; every "
-             "weight depth slice fits the SRAM buffer propose_weight_buffering creates for it. The remaining weight/DMA address arithmetic is decided under C08.",
+             "weight depth slice fits the SRAM buffer propose_weight_buffering creates for it; a slice's weight DMA reads exactly that slice; rolling_buffer_shape is as wide "
+             "as the producer writes and the consumer reads. The remaining weight/DMA address arithmetic is decided under C08.",
         note="Partial: the composition allocator address + footprint <= published region sizes over a compiled network is outside (no "
              "end-to-end compilation in this technique); graph-level format decisions are outside. Trusted: z3, symx proxies, the tile/stride "
              "addressing rule restated in the harness.",
